@@ -118,6 +118,18 @@ func (f *FragmentBuffer) pushHandshakeFragments(
 			continue
 		}
 
+		if frag.handshakeHeader.FragmentLength == 0 &&
+			(frag.handshakeHeader.Length != 0 || frag.handshakeHeader.FragmentOffset != 0) {
+			// An empty fragment is only meaningful as the single fragment of an
+			// empty message. Anywhere else it carries no data, and storing it
+			// would take the slot of the real fragment at that offset (the
+			// message could then never be completed) or leave an empty message
+			// without a fragment at offset zero for Pop to read.
+			buf = buf[end:]
+
+			continue
+		}
+
 		messageFragments, ok := f.cache[frag.handshakeHeader.MessageSequence]
 		if !ok {
 			messageFragments = &fragments{
